@@ -374,6 +374,9 @@ func (e *Engine) Run() (err error) {
 			}
 			v := e.evalBool(st, env, c.E)
 			st.assume(v)
+			if strings.HasPrefix(c.Label, "env-") {
+				e.noteAssumption(fmt.Sprintf("environment assumption, not checked at call sites (%s in %s: %s)", c.Label, e.oblPrefix(fn), c.Src))
+			}
 			if strings.HasPrefix(c.Label, "pkginit-") {
 				// a fact about package-level variables that the package initializer establishes (proved as an
 				// ensures of the unit `init` of the same package); callers are not asked to re-establish it
